@@ -66,16 +66,18 @@ ASSUMPTIONS = [
 ]
 BUDGET = {"quick": 60, "thorough": 540}
 FLOORS = {
-    "quick": {"evaluations": 1200, "distinct_nontrivial": 600,
-              "counters": {"meta_checked_results": 900, "meta_checked_partitions": 2500, "public_views_checked": 800,
-                           "c36_pipelines_checked": 350, "ops_programs_checked": 500, "scalar_results": 40,
-                           "index_results": 25, "series_results": 250, "frame_results": 450},
-              "max_skipped_fraction": 0.35},
-    "thorough": {"evaluations": 16000, "distinct_nontrivial": 8000,
-                 "counters": {"meta_checked_results": 12000, "meta_checked_partitions": 35000, "public_views_checked": 11000,
-                              "c36_pipelines_checked": 5000, "ops_programs_checked": 7000, "scalar_results": 500,
-                              "index_results": 350, "series_results": 3500, "frame_results": 6000},
-                 "max_skipped_fraction": 0.35},
+    # measured on the unchanged tree (seeds 0,1,2,7,12345, complete streams of 1600 cases): results checked >= 1438, partitions
+    # >= 4570 (empty >= 868), c36 pipelines >= 553, ops programs >= 885, series/frame/scalar/index results >= 372/965/56/19
+    "quick": {"evaluations": 720, "distinct_nontrivial": 440,
+              "counters": {"meta_checked_results": 650, "meta_checked_partitions": 2000, "empty_partitions_checked": 390,
+                           "public_views_checked": 650, "c36_pipelines_checked": 250, "ops_programs_checked": 400,
+                           "scalar_results": 25, "index_results": 8, "series_results": 165, "frame_results": 430},
+              "sets": {"program_forms": 300}, "max_skipped_fraction": 0.35},
+    "thorough": {"evaluations": 10800, "distinct_nontrivial": 6600,
+                 "counters": {"meta_checked_results": 9700, "meta_checked_partitions": 30000, "empty_partitions_checked": 5800,
+                              "public_views_checked": 9700, "c36_pipelines_checked": 3700, "ops_programs_checked": 6000,
+                              "scalar_results": 370, "index_results": 120, "series_results": 2500, "frame_results": 6500},
+                 "sets": {"program_forms": 2000}, "max_skipped_fraction": 0.35},
 }
 EXHAUSTIVE_SPACE = None
 CLAIM = ("For every generated program (C36 pipelines and compact reduction / groupby / merge / concat / shuffle / window / "
@@ -86,7 +88,48 @@ LEVEL_NOTE = "trusts vf.gen.frames.meta_violation and pandas dtype reporting; Ar
 TECHNIQUE = "runtime monitoring: cross-cutting meta monitor (lazy ._meta vs computed result and each computed partition)"
 CASE_TIMEOUT = 90
 
-PENDING = {}
+PENDING = {
+    'merge:meta-dtype(value-dependent)':
+        "G1 meta = what pandas infers without data; computed dtype is pandas' value-dependent upcast (NaN / float replacement / unmatched merge rows)",
+    'c36-elementwise:meta-dtype(value-dependent)':
+        "G1 meta = what pandas infers without data; computed dtype is pandas' value-dependent upcast (NaN / float replacement / unmatched merge rows)",
+    'c36:assign:meta-dtype(float64->int64)':
+        'G2 .str.len() (and other int-valued .str methods): meta float64 because meta_nonempty(str) holds a NaN; computed int64',
+    'c36-elementwise:meta-dtype(value-dependent)@partition':
+        "G1 meta = what pandas infers without data; computed dtype is pandas' value-dependent upcast (NaN / float replacement / unmatched merge rows)",
+    'window:cumsum:int:frame:meta-dtype(int64->float64)':
+        'G3 cumsum/cumprod of an int64 column computes float64 (meta int64) - the C46 finding seen through the meta monitor',
+    'c36:filter:meta-kind':
+        'G4 = C36 F5: Filter with an AsType predicate computes the mask (meta says the filtered frame/series)',
+    'c36:apply:axis1:meta-dtype(bool->float64)':
+        'G5 = C36 F11: apply(axis=1, meta=) on an empty partition yields a float64/empty-frame piece, result dtype differs from the given meta',
+    'c36:series:str[str.len]:meta-dtype(float64->int64)':
+        'G2 .str.len() (and other int-valued .str methods): meta float64 because meta_nonempty(str) holds a NaN; computed int64',
+    'window:cumprod:int:frame:meta-dtype(int64->float64)':
+        'G3 cumsum/cumprod of an int64 column computes float64 (meta int64) - the C46 finding seen through the meta monitor',
+    'c36:filter:series:meta-dtype(Int64->bool)':
+        'G4 = C36 F5: Filter with an AsType predicate computes the mask (meta says the filtered frame/series)',
+    'c36:other:assign:meta-dtype(int64->float64)':
+        'G6 = C36 F8: AssignAlign outer alignment adds NaN rows: existing columns upcast, meta does not say so',
+    'c36:project:meta-columns':
+        "G7 = C36 F3: projection of an aligned binary op keeps the other operand's columns; meta has the projected columns only",
+    'c36:apply:axis1:meta-dtype(str->float64)':
+        'G5 = C36 F11: apply(axis=1, meta=) on an empty partition yields a float64/empty-frame piece, result dtype differs from the given meta',
+    'c36:project:meta-dtype(boolean->bool)':
+        'G4 = C36 F5: Filter with an AsType predicate computes the mask (meta says the filtered frame/series)',
+    'c36:assign:meta-columns':
+        "G8 = C36 F9: squashed Assign nodes change the column order; meta keeps pandas' order",
+    'c36:filter:earlier-state-mask:meta-kind':
+        'G4 = C36 F5: Filter with an AsType predicate computes the mask (meta says the filtered frame/series)',
+    'c36:other:assign:meta-dtype(bool->str)':
+        'G6 = C36 F8: AssignAlign outer alignment adds NaN rows: existing columns upcast, meta does not say so',
+    'c36:project:meta-columns@partition':
+        "G7 = C36 F3: projection of an aligned binary op keeps the other operand's columns; meta has the projected columns only",
+    'c36:project:meta-kind':
+        'G4 = C36 F5: Filter with an AsType predicate computes the mask (meta says the filtered frame/series)',
+    'window:cumsum:int:frame:meta-dtype(int64->float64)@partition':
+        'G3 cumsum/cumprod of an int64 column computes float64 (meta int64) - the C46 finding seen through the meta monitor',
+}
 
 OPS_CLASSES = ("reduction", "groupby-agg", "merge", "concat", "shuffle", "window", "repartition", "index")
 
